@@ -126,4 +126,41 @@ class IMCase(ICase):
         return out
 
 
-HEADER = ("From Yata Require Import Exec.IndRun.\nFrom Coq Require Import Floats.\nLocal Existing Instance PW8.\n")
+HEADER = ("From Yata Require Import Exec.IndRun Spec.Hist Spec.MethodDefs Spec.IndicatorDefs.\nFrom Coq Require Import Floats.\nLocal Existing Instance PW8.\n")
+
+
+# ---------------------------------------------------------------- published formulas (Spec/IndicatorDefs.v)
+# name -> (values function over cfg, number of values, kind: "lin" linear in prices | "osc" bounded quotient)
+SPECS = {
+    "MACD": (lambda c: "macd_values %s %s %s %s" % (cq(c["ma1"]), cq(c["ma2"]), cq(c["signal"]), cq(c["source"])), 2, "lin"),
+    "BollingerBands": (lambda c: "boll_values %s %s %s" % (cq(c["avg_size"]), cq(c["sigma"]), cq(c["source"])), 3, "lin"),
+    "DonchianChannel": (lambda c: "donch_values %s" % cq(c["period"]), 3, "lin"),
+    "Envelopes": (lambda c: "env_values %s %s %s %s" % (cq(c["ma"]), cq(c["k"]), cq(c["source"]), cq(c["source2"])), 3, "lin"),
+    "MomentumIndex": (lambda c: "momi_values %s %s %s" % (cq(c["period1"]), cq(c["period2"]), cq(c["source"])), 2, "lin"),
+    "DetrendedPriceOscillator": (lambda c: "dpo_values %s %s" % (cq(c["ma"]), cq(c["source"])), 1, "lin"),
+    "RelativeStrengthIndex": (lambda c: "rsi_values %s %s" % (cq(c["ma"]), cq(c["source"])), 1, "osc"),
+    "ChandeMomentumOscillator": (lambda c: "cmo_values %s %s" % (cq(c["period"]), cq(c["source"])), 1, "osc"),
+    "StochasticOscillator": (lambda c: "sto_values %s %s %s" % (cq(c["period"]), cq(c["ma"]), cq(c["signal"])), 2, "osc"),
+    "Aroon": (lambda c: "aroon_values %s" % cq(c["period"]), 2, "osc"),
+    "ChaikinMoneyFlow": (lambda c: "cmf_values %s" % cq(c["size"]), 1, "osc"),
+    "MoneyFlowIndex": (lambda c: "mfi_values %s %s" % (cq(c["period"]), cq(c["zone"])), 3, "osc"),
+    "KeltnerChannel": (lambda c: "kelt_values %s %s %s" % (cq(c["ma"]), cq(c["sigma"]), cq(c["source"])), 3, "lin"),
+    "PriceChannelStrategy": (lambda c: "pch_values %s %s" % (cq(c["period"]), cq(c["sigma"])), 2, "lin"),
+    "CommodityChannelIndex": (lambda c: "ccii_values %s %s" % (cq(c["period"]), cq(c["source"])), 1, "osc"),
+    "IchimokuCloud": (lambda c: "ichi_values %s %s %s %s" % (cq(c["l1"]), cq(c["l2"]), cq(c["l3"]), cq(c["m"])), 4, "lin"),
+    "EldersForceIndex": (lambda c: "efi_values %s %s %s" % (cq(c["ma"]), cq(c["period2"]), cq(c["source"])), 1, "vol"),
+    "KlingerVolumeOscillator": (lambda c: "kvo_values %s %s %s" % (cq(c["ma1"]), cq(c["ma2"]), cq(c["signal"])), 2, "vol"),
+    "KnowSureThing": (lambda c: "kst_values %s %s %s %s %s %s %s %s %s" % tuple(cq(c[k]) for k in ("period1", "period2", "period3", "period4", "ma1", "ma2", "ma3", "ma4", "signal")), 2, "osc"),
+    "TrueStrengthIndex": (lambda c: "tsii_values %s %s %s %s" % (cq(c["period1"]), cq(c["period2"]), cq(c["period3"]), cq(c["source"])), 2, "osc"),
+    "Trix": (lambda c: "trix_values %s %s %s" % (cq(c["period1"]), cq(c["signal"]), cq(c["source"])), 2, "lin"),
+    "ChaikinOscillator": (lambda c: "co_values %s %s %s" % (cq(c["ma1"]), cq(c["ma2"]), cq(c["window"])), 1, "vol"),
+    "CoppockCurve": (lambda c: "cop_values %s %s %s %s %s" % (cq(c["ma1"]), cq(c["s3_ma"]), cq(c["period2"]), cq(c["period3"]), cq(c["source"])), 2, "osc"),
+}
+
+
+def spec_term_for(case):
+    if case.name not in SPECS:
+        return None
+    f, nv, kind = SPECS[case.name]
+    cfg = eff_config(case.t, case.sets)
+    return "ind_spec (%s) %s [] [%s]" % (f(cfg), cq_candle(case.c0), "; ".join(cq_candle(c) for c in case.cs))
